@@ -21,6 +21,7 @@ GInit == CInit /\ steps = 0 /\ out = ToJson([t |-> "init", ver |-> 0])
 GStep == /\ steps' = steps + 1
          /\ \E op \in GenOps(steps + 1) :
               \E oc \in Outcomes(op, objs, ver) :
+                 /\ oc.rep.st # "error"
                  /\ IsFree(op) => oc.rep.st = "other"
                  /\ objs' = oc.objs /\ ver' = oc.ver
                  /\ out' = ToJson([t |-> op.t, n |-> op.n, k |-> op.k, mk |-> op.mk, free |-> IsFree(op),
